@@ -146,8 +146,9 @@ Inductive ev :=
 | UlmBegin
 | UlmPre                                   (* one step of the preload on the copy *)
 | UlmMerge
-| CloneInfoFail (stage : nat) (rev : N).   (* UpdateCloneInfo whose write of volume.meta (stage 0) or of the head's
-                                              .meta (stage 1: the counter is set by then) fails: it returns the error *)
+| CloneInfoFail (stage : nat) (rev : N).   (* UpdateCloneInfo with a failing write: stage 0, before the counter is set
+                                              (volume.meta, or the counter block itself); stage 1, the head's .meta
+                                              (the counter is set by then): it returns the error *)
 
 Definition src_write (fx : bool) (K : nat) (s : rb) (off : nat) (data : list N) : rb :=
   let '(d1, hs) := write_at fx K (src s) data off in set_src s d1 (spend s ++ hs).
